@@ -357,7 +357,7 @@ def lattice_work(payload):
 # ------------------------------------------------------------------ histories of calls sharing arguments
 
 CALLS = ["map_thin_resdict", "map_thick_two_layers", "map_rendered", "hist2d_limits", "hist2d_rendered", "hist1d", "scatter", "plot",
-         "map_thick_default_resolution", "map_thick_partial_dict", "map_thin_other_unit"]
+         "map_thick_default_resolution", "map_thick_partial_dict", "map_thin_other_unit", "map_normobj_unrendered", "hist2d_normobj_unrendered"]
 
 
 class Shared:
@@ -385,6 +385,11 @@ class Shared:
         self.xmin = 0.25 * osyris.units("cm")
         self.size = osyris.Array(np.full(8, 0.1), unit="cm", name="size")
         self.extra = {"cmap": "viridis"}
+        # ready-made matplotlib norms, at layer level and for a call: without rendering nothing may touch them
+        from matplotlib.colors import LogNorm, PowerNorm
+
+        self.normobj = LogNorm()
+        self.L5 = self.mesh.layer("density", norm=PowerNorm(0.5))
 
     def snapshot(self):
         import osyris
@@ -399,12 +404,13 @@ class Shared:
 
         def sl(layer):
             return {"key": layer.key, "arrays": {k: sa(v) for k, v in layer.arrays.items()}, "mode": layer.mode, "operation": layer.operation,
-                    "norm": repr(layer.norm), "vmin": layer.vmin, "vmax": layer.vmax, "bins": repr(layer.bins),
+                    "norm": layer.norm if isinstance(layer.norm, (str, type(None))) else type(layer.norm).__name__, "norm_limits": [repr(getattr(layer.norm, "vmin", None)), repr(getattr(layer.norm, "vmax", None))], "vmin": layer.vmin, "vmax": layer.vmax, "bins": repr(layer.bins),
                     "weights": sa(layer.weights) if layer.weights is not None else None, "kwargs": sorted((k, repr(v)) for k, v in layer.kwargs.items())}
 
         return {
             "mesh": {k: sa(v) for k, v in self.mesh.items()}, "mesh_keys": list(self.mesh.keys()),
-            "L1": sl(self.L1), "L2": sl(self.L2), "L3": sl(self.L3), "L4": sl(self.L4),
+            "L1": sl(self.L1), "L2": sl(self.L2), "L3": sl(self.L3), "L4": sl(self.L4), "L5": sl(self.L5),
+            "normobj": [repr(self.normobj.vmin), repr(self.normobj.vmax)],
             "res1": sorted(self.res1.items()), "res2": sorted(self.res2.items()), "res3": sorted(self.res3.items()), "dx_m": repr(self.dx_m), "origin": sa(self.origin),
             "dx": repr(self.dx), "dz": repr(self.dz), "x": sa(self.x), "y": sa(self.y), "w": sa(self.w), "xmin": repr(self.xmin),
             "size": sa(self.size), "extra": sorted(self.extra.items()),
@@ -450,6 +456,12 @@ def do_call(name, S):
             if name == "map_thin_other_unit":
                 p = osyris.map(S.L1, direction="z", dx=S.dx_m, origin=S.origin, resolution=4, plot=False)
                 return [np.asarray(p.x).tolist(), np.asarray(p.y).tolist(), lay_data(p)]
+            if name == "map_normobj_unrendered":
+                p = osyris.map(S.L5, S.L1, direction="z", dx=S.dx, origin=S.origin, resolution=4, vmin=1.5, vmax=4.0, plot=False)
+                return [np.asarray(p.x).tolist(), lay_data(p), [repr(getattr(l["params"].get("norm"), "vmin", None)) for l in p.layers]]
+            if name == "hist2d_normobj_unrendered":
+                p = osyris.histogram2d(S.x, S.y, S.mesh["mass"], resolution=3, norm=S.normobj, vmin=2.0, vmax=7.0, plot=False)
+                return [np.asarray(p.x).tolist(), lay_data(p)]
             if name == "hist2d_limits":
                 p = osyris.histogram2d(S.x, S.y, S.L3, resolution=4, xmin=S.xmin, plot=False, **S.extra)
                 return [np.asarray(p.x).tolist(), lay_data(p)]
